@@ -5,4 +5,5 @@ var hostilePool = []string{
 	`http://x/","type":"Delete`, `a"b`, `"`, `""`, `x"y"z"`, `a\"b`, `a\\"b`, `back\slash`, `trailing\`, "line\nfeed", "tab\there", "nul\x00byte",
 	"\x1funit", `{"a":1}`, `[1,2]`, `</script><script>`, "café", "\U0001F600", " ", "bad\xffutf8", "\xc3", `A`, `'single'`, "a,b", "a:b", "}", "]",
 	"https://example.com/path with space", `text/html; charset="utf-8"`,
+	"before\u2028after", "a\u2029", "x\u2028\u2029y\u2028", "del\x7f", "\u00e9\u2028",
 }
